@@ -754,6 +754,16 @@ impl G {
                 self.flush_all();
             }
         }
+        // the server goes silent (heartbeats enabled): in one case of twelve the fatal event is the
+        // expiry of the receive timer - also while the client's own close is in flight
+        if self.rng.chance(1, 12) {
+            if !prefix.is_empty() {
+                self.feed_stream(prefix, Term::Block);
+            }
+            self.w.event_heartbeat_missed();
+            self.w.teardown();
+            return;
+        }
         match self.rng.below(7) {
             0 => self.feed_stream(prefix, Term::Eof),
             1 => self.feed_stream(prefix, Term::IoErr),
@@ -1041,6 +1051,13 @@ impl G {
             self.w.peek_out();
             self.w.is_done();
             if self.w.errored || self.w.dead {
+                return;
+            }
+            // the server never answers the Close and stays silent: with heartbeats on, the receive
+            // timer ends the wait
+            if self.rng.chance(1, 14) {
+                self.w.event_heartbeat_missed();
+                self.w.teardown();
                 return;
             }
             let term = match self.rng.below(6) {
